@@ -536,8 +536,11 @@ pub fn run(lts: &HLts, o: &HOpts) -> Value {
                         ("start", 4, -1), ("cur", 0, 1), ("cur", 0, 0), ("cur", 0, -1), ("start", 2, 0), ("cur", 2, -1), ("cur", -2, 0), ("end", 2, -1),
                         ("end", -2, 0), ("start", 2, -1), ("cur", 0, 2), ("end", 0, -1000), ("start", 0, 5), ("cur", 0, -7), ("end", 0, 3), ("start", 1, 0),
                     ];
-                    for _ in 0..rng.gen_range(4..11) {
-                        let (w, hi, lo) = CAT[rng.gen_range(0..CAT.len())];
+                    // a third of the scripts is the catalogue in order (u64::MAX, +1, 0, -1, 2^63, +i64::MAX, +i64::MIN, ...)
+                    let canonical = rng.gen_bool(0.33);
+                    let n = if canonical { 9 } else { rng.gen_range(4..11) };
+                    for si in 0..n {
+                        let (w, hi, lo) = if canonical { CAT[si] } else { CAT[rng.gen_range(0..CAT.len())] };
                         let lo = lo * o.b as i64;
                         let bo = json!({"op":"bseek","c":[],"wh":"","off":0,"n":0,"w":w,"hi":hi,"lo":lo,"b":o.b});
                         let (cls, v) = ctx.exec(&bo);
